@@ -27,6 +27,7 @@ type EventElement interface {
 const PubSubCollectionEventName = "Collection"
 
 type CollectionEvent struct {
+	XMLName xml.Name `xml:"collection"`
 	AssocDisassoc AssocDisassoc
 	Node          string `xml:"node,attr,omitempty"`
 }
@@ -77,6 +78,7 @@ func (e *DisassociateEvent) GetAssocDisassoc() string {
 const PubSubConfigEventName = "Configuration"
 
 type ConfigurationEvent struct {
+	XMLName xml.Name `xml:"configuration"`
 	Node string `xml:"node,attr,omitempty"`
 	Form *Form
 }
@@ -91,6 +93,7 @@ func (c ConfigurationEvent) Name() string {
 const PubSubDeleteEventName = "Delete"
 
 type DeleteEvent struct {
+	XMLName xml.Name `xml:"delete"`
 	Node     string         `xml:"node,attr"`
 	Redirect *RedirectEvent `xml:"redirect"`
 }
@@ -159,6 +162,7 @@ func (p PurgeEvent) Name() string {
 const PubSubSubscriptionEventName = "Subscription"
 
 type SubscriptionEvent struct {
+	XMLName   xml.Name `xml:"subscription"`
 	SubStatus string `xml:"subscription,attr,omitempty"`
 	Expiry    string `xml:"expiry,attr,omitempty"`
 	SubInfo   `xml:",omitempty"`
